@@ -992,3 +992,118 @@ def _variants(v, depth=0):
     elif v[0] in ("upd", "mod"):
         out += _variants(v[1], depth + 1)
     return out
+
+
+@rule("R-MOLO-BOTH-ELLPS", ["C07"])
+def r_molo_both_ellps(cx):
+    """molodensky derives da and df from the two ellipsoids only when *both* `ellps_0` and `ellps_1` were given by the
+    user; with only one of them the other is a gamut default (GRS80), and an explicit `da` / `df` must stand. The block
+    that stores the derived da / df is reached only with `given` containing both keys (facts implied by the dominating
+    branch decisions, through `&&` / stored booleans) - an `||` there overwrites explicit values."""
+    import guards
+    f = cx.f.fn("inner_op::molodensky::new")
+    n = 0
+    for (bb, m, key, val) in K.inserts_in(cx.f, f):
+        if m != "real" or key not in ("da", "df"):
+            continue
+        n += 1
+        facts = guards.branch_facts(f, bb)
+        given = set()
+        for at, tv in facts:
+            if tv and at[0] == "call" and isinstance(at[1], str) and at[1].endswith("::contains_key") and len(at[2]) > 1:
+                k = K._const_key(at[2][1])
+                if k:
+                    given.add(k)
+        ok = {"ellps_0", "ellps_1"} <= given
+        cx.ob("R-MOLO-BOTH-ELLPS", "molodensky/%s" % key, ok,
+              "the derived %s is stored only when both ellps_0 and ellps_1 were given" % key if ok else
+              "molodensky::new overwrites %s with the difference of the two ellipsoids although only %s is known to be "
+              "given there: with one of ellps_0 / ellps_1 missing, the other is the GRS80 default and an explicit %s is "
+              "lost" % (key, sorted(given) or "neither", key), cx.where(f.term(bb)["span"]))
+    cx.count("R-MOLO-BOTH-ELLPS", "derived_inserts", n)
+
+
+@rule("R-ROT-SMALL-ANGLE", ["C07"])
+def r_rot_small_angle(cx):
+    """In small-angle mode (no `exact`) the rotation matrix is first order in the angles, which is what makes the two
+    conventions interchangeable: M(-r) = M(r) transposed, so coordinate_frame with rotations r is position_vector with
+    -r. Checked as a polynomial identity on the matrix rotation_matrix returns when `exact` is false (both settings of
+    position_vector): element (i, j) at -r equals element (j, i) at r. Second-order products left in some elements only
+    (r12, r13, r22, r23) break it."""
+    import guards
+    import elems as E
+    from poly import Poly, subst
+    from rules.algebra import _rf
+    name = "inner_op::helmert::rotation_matrix"
+    if not cx.f.has_fn(name):
+        cx.ob("R-ROT-SMALL-ANGLE", "anchor", False, "anchor-missing: %s" % name)
+        return
+    f = cx.f.fn(name)
+    rt = E.return_term(f)
+
+    def resolve(t, assume, depth=0):
+        t = mir.strip_refs(t)
+        if depth > 40 or not isinstance(t, tuple):
+            return t
+        if t[0] == "phi" and isinstance(t[1], tuple) and isinstance(t[1][0], int):
+            reach = f.reachable()
+            preds = [p for p in f.pred[t[1][0]] if p in reach]
+            if len(preds) == len(t[2]):
+                keep = []
+                for p, arm in zip(preds, t[2]):
+                    facts = guards.edge_facts(f, p, t[1][0])
+                    if any(mir.strip_refs(a) in assume and assume[mir.strip_refs(a)] != tv for a, tv in facts):
+                        continue
+                    keep.append(arm)
+                uniq = []
+                for k in keep:
+                    r = resolve(k, assume, depth + 1)
+                    if r not in uniq:
+                        uniq.append(r)
+                if len(uniq) == 1:
+                    return uniq[0]
+            return t
+        if t[0] in ("bin",):
+            return (t[0], t[1], resolve(t[2], assume, depth + 1), resolve(t[3], assume, depth + 1))
+        if t[0] == "un":
+            return (t[0], t[1], resolve(t[2], assume, depth + 1))
+        if t[0] == "agg":
+            return (t[0], t[1], tuple(resolve(x, assume, depth + 1) for x in t[2]))
+        if t[0] == "proj":
+            b = resolve(t[1], assume, depth + 1)
+            if b[0] == "agg" and isinstance(t[2], tuple) and t[2][0] in ("f", "elem") and len(t[2]) > 1 and \
+                    isinstance(t[2][1], int) and t[2][1] < len(b[2]):
+                return b[2][t[2][1]]
+            return (t[0], b, t[2])
+        return t
+
+    def atom(t):
+        t = mir.strip_refs(t)
+        if t[0] == "proj" and isinstance(t[2], tuple) and t[2][0] == "elem" and len(t[2]) > 1 and isinstance(t[2][1], int):
+            b = mir.strip_refs(t[1])
+            if b in (("proj", ("arg", 1), "deref"), ("arg", 1)):
+                return "r%d" % t[2][1]
+        return None
+    n = 0
+    for pv in (True, False):
+        m = resolve(rt, {("arg", 2): False, ("arg", 3): pv}) if rt is not None else None
+        ok, why = False, "the returned matrix could not be read for exact = false"
+        if m is not None and m[0] == "agg" and len(m[2]) == 3 and all(r[0] == "agg" and len(r[2]) == 3 for r in m[2]):
+            P = [[_rf(m[2][i][2][j], atom) for j in range(3)] for i in range(3)]
+            if all(P[i][j] is not None for i in range(3) for j in range(3)):
+                neg = {"r0": -Poly.sym("r0"), "r1": -Poly.sym("r1"), "r2": -Poly.sym("r2")}
+                bad = []
+                for i in range(3):
+                    for j in range(3):
+                        a_n, a_d = subst(P[i][j][0], neg), subst(P[i][j][1], neg)
+                        b_n, b_d = P[j][i]
+                        if not (a_n * b_d == b_n * a_d):
+                            bad.append((i + 1, j + 1))
+                ok = not bad
+                why = "elements %s violate M(-r) = M(r)^T" % bad
+        n += 1
+        cx.ob("R-ROT-SMALL-ANGLE", "position_vector=%s" % str(pv).lower(), ok,
+              "small-angle rotation matrix: M(-r) equals the transpose of M(r)" if ok else
+              "rotation_matrix (exact = false, position_vector = %s): %s - in small-angle mode coordinate_frame with "
+              "rotations r no longer equals position_vector with -r" % (str(pv).lower(), why), cx.where(f.d["span"]))
+    cx.count("R-ROT-SMALL-ANGLE", "matrices", n)
